@@ -49,7 +49,9 @@ def check_trimmed(ctx: Ctx, dtype):
     b = rng.choice([0, 1, 1, 2, 3])
     m = rng.randint(2 * b + 1, 2 * b + 6)
     if rng.random() < 0.2:
-        m = rng.choice([16 * max(b, 1), 16 * max(b, 1) + 5, 40, 64, 100])      # many rows, few of them trimmed
+        m = rng.choice([16 * max(b, 1), 16 * max(b, 1) + 5, 40, 64, 100, rng.randint(41, 130), rng.randint(41, 130),
+                        rng.choice([47, 49, 55, 57, 98, 107])])      # many rows, few of them trimmed
+        m = max(m, 2 * b + 1)
         ctx.count("trimmed_many_rows")
     n = rng.choice([1, 2, 3, 5])
     H = honest_cluster(rng, m, n, spread=rng.choice([0, 2, 30]))
